@@ -78,3 +78,35 @@ Proof. intros H. cbn. rewrite andb_false_r, H. destruct st; reflexivity. Qed.
 
 (* and in the other direction: whenever the static condition fails for a join, some task state of the
    state space stops the procedure there (unsafe_cancel_await_has_witness) *)
+
+(* "leaves nothing running" at the level of the calculus: when the translated stop() has completed, every task
+   that was in a slot it joins has ended (normally, cancelled, or with its exception) *)
+Lemma consumer_group_nothing_running env stp t :
+  env_ok slots env = true -> In stp consumer_group_stop -> step_slot stp = Some t ->
+  forallb (fun s => ended (task_after (s_routine (nth t slots default_slot)) stp s)) (nth t env []) = true.
+Proof.
+  intros He. apply completed_leaves_joined_tasks_ended with (k := 0). apply consumer_group_completes. exact He.
+Qed.
+Lemma consumer_nogroup_nothing_running env stp t :
+  env_ok slots env = true -> In stp consumer_nogroup_stop -> step_slot stp = Some t ->
+  forallb (fun s => ended (task_after (s_routine (nth t slots default_slot)) stp s)) (nth t env []) = true.
+Proof.
+  intros He. apply completed_leaves_joined_tasks_ended with (k := 0). apply consumer_nogroup_completes. exact He.
+Qed.
+Lemma producer_nothing_running env stp t :
+  env_ok slots env = true -> In stp producer_stop -> step_slot stp = Some t ->
+  forallb (fun s => ended (task_after (s_routine (nth t slots default_slot)) stp s)) (nth t env []) = true.
+Proof.
+  intros He. apply completed_leaves_joined_tasks_ended with (k := 0). apply producer_completes. exact He.
+Qed.
+
+Lemma stop_leaves_no_joined_task_running : forall env stp t,
+  env_ok slots env = true -> step_slot stp = Some t ->
+  (In stp consumer_group_stop \/ In stp consumer_nogroup_stop \/ In stp producer_stop) ->
+  forallb (fun s => ended (task_after (s_routine (nth t slots default_slot)) stp s)) (nth t env []) = true.
+Proof.
+  intros env stp t He Ht [H|[H|H]].
+  - exact (consumer_group_nothing_running env stp t He H Ht).
+  - exact (consumer_nogroup_nothing_running env stp t He H Ht).
+  - exact (producer_nothing_running env stp t He H Ht).
+Qed.
